@@ -501,14 +501,14 @@ MDead == (Mode = "machine" /\ dead) => devUsed # {}
 (* ======================= behaviour export ============================== *)
 Terminal == dead \/ nsteps = MaxSteps
 EmitAll == (Hist /\ Terminal) => PrintT(<<"BEH", ToJson(hist)>>)
-Wit(c) == (Hist /\ c /\ Terminal) => (PrintT(<<"BEH", ToJson(hist)>>) /\ FALSE)
+Wit(c) == (Hist /\ c) => (PrintT(<<"BEH", ToJson(hist)>>) /\ FALSE)      \* shortest behaviour reaching c
 \* rare conditions that must be replayed on the real code on every run
 WitFallback   == Wit(\E i \in 1..Len(pool) : SvcKey \in DOMAIN pool[i].attrs /\ pool[i].attrs[SvcKey] = "ANY")
 WitUrlKept    == Wit(last.op = "Merge" /\ pool[last.b].url = "" /\ pool[last.a].url # "")
 WitUrlWins    == Wit(last.op = "Merge" /\ pool[last.b].url # "" /\ pool[last.a].url # "" /\ pool[last.a].url # pool[last.b].url)
 WitOverlap    == Wit(last.op = "Merge" /\ \E k \in DOMAIN pool[last.a].attrs \cap DOMAIN pool[last.b].attrs :
                                               pool[last.a].attrs[k] # pool[last.b].attrs[k])
-WitMergeOfMerged == Wit(last.op = "Merge" /\ last.a > 2 /\ last.b > 2 /\ last.a # last.b /\ nsteps >= 4)
+WitMergeOfMerged == Wit(last.op = "Merge" /\ last.a > 2 /\ last.b > 2 /\ last.a # last.b /\ Len(pool) >= 6)
 WitUserOverEnv == Wit(last.op = "Create" /\ \E k \in DOMAIN last.user \cap DOMAIN envalt : last.user[k] # envalt[k])
 WitEnvOverDefault == Wit(last.op = "Create" /\ \E k \in DOMAIN envalt \cap DOMAIN DefaultRes.attrs : k \notin DOMAIN last.user)
 WitSvcEnvBoth == Wit(last.op = "Create" /\ env.svc.c = "set" /\ \E i \in 1..Len(env.toks) : env.toks[i].t = "kv" /\ env.toks[i].k = SvcKey /\ env.toks[i].v # env.svc.v)
